@@ -38,4 +38,5 @@ class Env:
         it = Interp(self.repo, self.schema, self.kindflow.kinds if image else None, **kw)
         it.summarise_funcs = {"odata_query.typing.infer_type"}
         it.run_exc_ctors = True  # building a library exception runs its constructor (with the values actually passed)
+        it.entry_through_decorators = True  # an explored function is what its callers get: the decorated one
         return it
